@@ -1,6 +1,6 @@
-(* Extraction of Model/RootQ.v for the C01 (root queue) trace conformance at volume (ExtrOcamlBasic only; Z, positive stay
-   inductive). *)
+(* Extraction of Model/RootQ.v and Model/RootQR.v for the C01 (root queue) trace conformance and whole-run replay at volume
+   (ExtrOcamlBasic only; Z, positive stay inductive). *)
 From Coq Require Extraction.
 From Coq Require Import ExtrOcamlBasic.
-From Verif Require Import Word Conc RootQ.
-Extraction "Extract/rootq_model.ml" conform.
+From Verif Require Import Word Conc Replay RootQ RootQR.
+Extraction "Extract/rootq_model.ml" conform abstract start_pc replay.
